@@ -78,6 +78,10 @@ def materialise(tree, ordered, copy_mode):
         # (dotted page names are left out of ordered_subpage lists: they follow alphabetically)
         if ordered in ("reversed", "reversed-cont"):
             listed = [(s + ".md" if k in ("P", "U", "E") else s) for (k, s) in reversed(candidates)]
+        elif ordered == "repeated" and candidates:
+            # an entry named twice in the list: it is one page, at the place of its first mention
+            rev = [(s + ".md" if k in ("P", "U", "E") else s) for (k, s) in reversed(candidates)]
+            listed = rev + [rev[0]]
         elif ordered == "partial" and candidates:
             k, s = candidates[-1]
             listed = [s + ".md" if k in ("P", "U", "E") else s]
@@ -93,7 +97,8 @@ def materialise(tree, ordered, copy_mode):
         if copy_mode == "page" and ndirs:
             copy_here = ndirs
             meta += "".join(f"copy_subdir: {d}\n" for d in ndirs)
-        elif copy_mode == "empty-override" and not is_root:
+        elif copy_mode in ("empty-override", "project+empty-override") and not is_root:
+            # (with a project-wide list: the empty setting of this index.md replaces it for this directory)
             meta += "copy_subdir: \n"
         elif copy_mode == "project+rootpage" and is_root:
             # the top index.md has its own list (which replaces the project-wide `a_n` for this page only);
@@ -109,7 +114,7 @@ def materialise(tree, ordered, copy_mode):
                 by_name[s + ".2.md"] = ("V2", s, e)
                 by_name[s + ".3.md"] = ("V3", s, e)
         alpha = sorted(by_name)
-        order = [x for x in listed if x in by_name] + [x for x in alpha if x not in listed]
+        order = [x for x in dict.fromkeys(listed) if x in by_name] + [x for x in alpha if x not in listed]
         titles = []
         for name in order:
             k, s, e = by_name[name]
@@ -136,7 +141,8 @@ def materialise(tree, ordered, copy_mode):
                 # directory without index.md: holds a file and a page that must be ignored (or copied verbatim)
                 files[f"pages/{rel}{s}/data.txt"] = "data"
                 files[f"pages/{rel}{s}/ignored.md"] = "title: Ignored\n\nignored\n"
-                if s in copy_here or (copy_mode == "project" and s == "a_n") or (copy_mode == "project+rootpage" and s == "a_n" and not is_root):
+                if s in copy_here or (copy_mode == "project" and s == "a_n") or (copy_mode == "project+rootpage" and s == "a_n" and not is_root) or (
+                        copy_mode == "project+empty-override" and s == "a_n" and is_root):
                     exp["copied_dirs"].append(f"{rel}{s}")
             elif k == "F":
                 files[f"pages/{rel}{s}.txt"] = "attachment"
@@ -190,7 +196,7 @@ def run_case(st: Stats, tree, ordered, copy_mode, url_mode=False):
         opts["search"] = True  # FORD's default
         opts["extra_filetypes"] = [dict(extension="sh", comment="#")]
         files = dict(files, **{"src/tool.sh": "#! a script\necho x\n"})
-    if copy_mode in ("project", "project+rootpage"):
+    if copy_mode in ("project", "project+rootpage", "project+empty-override"):
         opts["copy_subdir"] = ["a_n"]
     r = fordrun.build(files, opts, stage="write", proj_body="front\n")
     st.evaluations += 1
@@ -351,10 +357,10 @@ def gen_cases(tier):
         for t in trees(n, 3):
             ks = [e if isinstance(e, str) else e[0] for e in flatten(t)]
             if sum(k in ("P", "D", "U") for k in ks) >= 2 or n <= 2:
-                for o in ("reversed", "partial", "reversed-cont"):
+                for o in ("reversed", "partial", "reversed-cont", "repeated"):
                     yield (t, o, "absent")
             if "N" in ks:
-                for c in ("page", "project", "empty-override", "project+rootpage"):
+                for c in ("page", "project", "empty-override", "project+rootpage", "project+empty-override"):
                     yield (t, "absent", c)
     for n in (0, 1, 2):
         for t in trees(n, 2):
